@@ -47,7 +47,9 @@ CrashClause(ev) ==
 
 Judge ==
   IF Line.obs.out \in {"crash", "timeout", "race"}
-  THEN [fail |-> {CrashClause(Line.ev)}, cls |-> Line.ev \o "/?>" \o Line.obs.out]
+  THEN (IF Line.ev = "Decode" /\ Len(Line.in) > 0 /\ Line.ty \in DOMAIN Defs
+        THEN DecodeDied(Line.ty, Line.in, ZeroStruct(Line.ty), Line.obs.out)
+        ELSE [fail |-> {CrashClause(Line.ev)}, cls |-> Line.ev \o "/?>" \o Line.obs.out])
   ELSE
   CASE Line.ev = "Size" -> JSize(Line.ty, ValOf, Line.obs)
     [] Line.ev = "Encode" ->
@@ -84,7 +86,10 @@ Why(v) ==
 ScenarioProps(v) ==
   IF v \cap {"dec_val", "dec_n", "dec_accept", "enc_bytes", "enc_ok", "size_exact", "size_ok", "enc_n"} # {} /\
      cur.prop \in {"C09", "C10", "C11", "C12", "C14"}
-  THEN {cur.prop} ELSE {}
+  THEN {cur.prop}
+  ELSE IF cur.prop = "C16" /\ v \cap {"enc_bytes", "enc_ok", "enc_n"} # {}
+  THEN {"C16"}       \* C16: encoding the same unmodified value again yields the same bytes
+  ELSE {}
 
 Report(v) == PrintT(ToJson([tag |-> "REJECT", l |-> l, sid |-> Line.sid, step |-> Line.step, ev |-> Line.ev,
                             clauses |-> v, props |-> PropsOf(v) \cup ScenarioProps(v), why |-> Why(v)]))
